@@ -5,3 +5,11 @@ pub mod stats;
 pub mod task;
 
 pub use self::scan_task::MAX_REDIRECTIONS;
+
+// Verification hooks (no behaviour change): re-export private modules for the /verif harness.
+#[cfg(undermoon_verif)]
+pub mod verif_export {
+    pub mod scan_task {
+        pub use super::super::scan_task::*;
+    }
+}
